@@ -267,8 +267,10 @@ Theorem C20_changeset_download_returns_sections : forall cfg lim id c m d els,
 Proof. exact i_download. Qed.
 Print Assumptions C20_changeset_download_returns_sections.
 
-(* Limit is accepted exactly in [1, 10000], MaxDaysClosed always (any int, negative included);
-   the accepted options appear as limit= / closed= in the order given (statement 1) *)
+(* a READING OF THE SPECIFICATION's own options_valid (not a statement about the code): Limit is
+   valid exactly in [1, 10000], MaxDaysClosed always (any int, negative included).  The tie to
+   the code is in statement 1 (valid options: the URL is defined and carries limit= / closed= in
+   the order given) and statement 5 (an invalid option: no request) *)
 Theorem C20_notes_options_valid_iff : forall b q os,
   (options_valid (Notes b os) = true <-> (forall n, In (Limit n) os -> 1 <= n <= 10000)) /\
   (options_valid (NotesSearch q os) = true <-> (forall n, In (Limit n) os -> 1 <= n <= 10000)).
